@@ -72,6 +72,8 @@ impl FeoxStore {
         self.validate_key(key)?;
         let timestamp = self.resolve_timestamp(key, timestamp);
         let timestamp_value = timestamp.0;
+        #[cfg(feature = "verif")]
+        crate::verif::timestamp(timestamp_value);
 
         let start = std::time::Instant::now();
         let mut observed = None;
@@ -98,6 +100,8 @@ impl FeoxStore {
             let new_value = crate::utils::json_patch::apply_json_patch(&current_value, patch)?;
             self.validate_key_value(key, &new_value)?;
             crate::test_hooks::pause_at(crate::test_hooks::AFTER_JSON_PATCH_READ);
+            #[cfg(feature = "verif")]
+            crate::verif::point("patch_read", 0, 0);
 
             if self.replace_record_if_current(key, &source, &new_value, timestamp, 0, start)? {
                 return Ok(());
